@@ -1391,6 +1391,12 @@ impl Server {
         self.last_activity
     }
 
+    /// Statements were entered into this connection's statement cache whose Parse the
+    /// server has not answered: the batch that carried them was abandoned.
+    pub fn has_pending_registrations(&self) -> bool {
+        !self.registering_prepared_statement.is_empty()
+    }
+
     /// The client altered the session (SET, PREPARE) and `checkin_cleanup` has not reset it.
     pub fn needs_cleanup(&self) -> bool {
         self.cleanup_connections && self.cleanup_state.needs_cleanup()
